@@ -443,6 +443,8 @@ ROUNDS = dict(
                         extra=["-simulate", "num=800", "-depth", "30", "-seed", "{seed}"]),
                    # structured exhaustive family: 2 direct inserts, one child, every 3..4 child operations, merge
                    dict(module="MPTTxn_MC", cfg="MPTTxn_gen_struct.cfg", workers=8),
+                   # structured exhaustive sibling family: a later sibling restructures what an earlier, merged one created
+                   dict(module="MPTTxn_MC", cfg="MPTTxn_gen_sib.cfg", workers=8),
                    # deep behaviours over two paths / two values / two children: overwrite-and-restore, split-and-collapse
                    dict(module="MPTTxn_MC", cfg="MPTTxn_gen_deep.cfg", workers=1,
                         extra=["-simulate", "num=2500", "-depth", "13", "-seed", "{seed}"])],
@@ -450,6 +452,7 @@ ROUNDS = dict(
                       dict(module="MPTTxn_MC", cfg="MPTTxn_gen_sim.cfg", workers=1, timeout=3000,
                            extra=["-simulate", "num=40000", "-depth", "12", "-seed", "{seed}"]),
                       dict(module="MPTTxn_MC", cfg="MPTTxn_gen_struct.cfg", workers=8),
+                      dict(module="MPTTxn_MC", cfg="MPTTxn_gen_sib.cfg", workers=8),
                       dict(module="MPTPersist", cfg="MPTPersist_gen.cfg", workers=1, timeout=3000,
                            extra=["-simulate", "num=20000", "-depth", "30", "-seed", "{seed}"]),
                       dict(module="MPTTxn_MC", cfg="MPTTxn_gen_deep.cfg", workers=1, timeout=3000,
